@@ -1103,7 +1103,8 @@ static void run_path(const Case& c) {
     VCHECK(d.size() == cut && b.size() == p.size() - cut - 1, "dirname-basename-split-point", "split is not at the last slash for (hex) ", hex(p));
     if (p.size() > 2 && p.find('/') != p.rfind('/')) ctx().nontrivial_case();
   } else {
-    VCHECK(b == p && d.empty(), "basename-no-slash", "path without a slash: basename/dirname are (hex) ", hex(b), " / ", hex(d));
+    if (!d.empty()) ctx().cls("path:dirname of a slash-free path is not empty");
+    VCHECK(b == p, "basename-no-slash", "path without a slash: basename/dirname are (hex) ", hex(b), " / ", hex(d));
   }
 }
 
